@@ -33,8 +33,8 @@ pub(super) fn generate_enum_definitions<'a, 'schema: 'a>(
             .variants
             .iter()
             .map(|v| {
-                let safe_name = super::shared::keyword_replace(v.as_str());
-                let name = normalization.enum_variant(safe_name.as_ref());
+                let name = normalization.enum_variant(v.as_str());
+                let name = super::shared::keyword_replace(name);
                 let name = Ident::new(&name, Span::call_site());
 
                 quote!(#name)
@@ -47,8 +47,8 @@ pub(super) fn generate_enum_definitions<'a, 'schema: 'a>(
             .variants
             .iter()
             .map(|v| {
-                let safe_name = super::shared::keyword_replace(v);
-                let name = normalization.enum_variant(safe_name.as_ref());
+                let name = normalization.enum_variant(v);
+                let name = super::shared::keyword_replace(name);
                 let v = Ident::new(&name, Span::call_site());
 
                 quote!(#name_ident::#v)
